@@ -39,6 +39,7 @@ type GenCfg struct {
 	InfFloats        bool // +Inf / -Inf float leaves (only where no reference model and no text rendering is involved)
 	RawStrings       bool // strings that are not valid UTF-8 (only where the record stays a Go value: no JSON text, no form)
 	BigInts          bool // int64 values beyond 2^53 (only where every front end in play carries integers exactly)
+	Formats          bool // Match / UUID / Email / URL tests on strings, with their own input domains
 }
 
 var allKinds = []string{"string", "int", "float", "bool", "time", "struct", "slice", "ptr", "custom", "pre"}
@@ -67,6 +68,7 @@ func DrawGenCfg(r *Rng, mode string) GenCfg {
 		PBadType:    Pick(r, []float64{0, 0.05, 0.15}),
 		Mode:        mode,
 		StructTests: Pick(r, []float64{0, 0.3, 0.6}),
+		Formats:     r.P(0.5),
 	}
 	// swarm: each kind enabled with probability 3/4, primitives never all off
 	for _, k := range allKinds {
@@ -121,6 +123,43 @@ var timeBase = "2024-01-10T00:00:00Z"
 
 func dayTime(k int) string {
 	return MustTime(timeBase).Add(time.Duration(k) * 24 * time.Hour).UTC().Format(time.RFC3339)
+}
+
+// The format tests (Match, UUID, Email, URL) get their own small input domains: members, near misses and look-alikes.
+var matchPatterns = []string{`^abc$`, `^ab`, `lo$`, `b`, `^[0-9]+$`, `^h.*o$`, `^v1\.2$`, `^prod\z`, `^(a|ab)$`, `(?i)^hello$`, `^$`, `^a\$b$`, `^x!$`}
+
+var formatDomain = map[string][]string{
+	"match": {"abc", "xabc", "abcx", "abc\n", "ab", "a", "v1.2", "v1x2", "xv1.2", "prod", "production", "reprod", "hello", "HELLO", "Hello1", "hello\n", "h\no", "ho", "h", "123", "12a", "a123",
+		"lo", "hello world", "a$b", "xa$b", "x!", "xx!", "ab#", "b"},
+	"uuid": {"123e4567-e89b-12d3-a456-426614174000", "123E4567-E89B-12D3-A456-426614174000", "00000000-0000-0000-0000-000000000000", "123e4567e89b12d3a456426614174000",
+		"123e4567--e89b-12d3-a456-426614174000", "123e4567-e89b-12d3-a456-42661417400", "123e4567-e89b-12d3-a456-4266141740000", "g23e4567-e89b-12d3-a456-426614174000",
+		"123e4567-e89b-12d3-a456-426614174000\n", "123e-4567e89b-12d3-a456-426614174000", "123e4567-e89b-12d3-a456-426614174000-", "-123e4567-e89b-12d3-a456-426614174000",
+		"123e4567-e89b-12d3-a456_426614174000", "{123e4567-e89b-12d3-a456-426614174000}", "1-2-3-4-5", "123e4567-e89-b12d3-a456-426614174000", "123e4567-e89b-12d3-a456-42661417-000", "-23e4567-e89b-12d3-a456-426614174000", strings.Repeat("-", 36)},
+	"email": {"a@b.co", "john.doe+tag@example.com", "a@b", "A1!#$%&'*+/=?^_`{|}~-@x.y", "a@", "@b.co", "a b@c.de", "a@b..co", "a@-b.co", "a@b-.co", "a@b.co\n", "a@@b.co", "a@b_c.de",
+		"\u00e9@b.co", "a@b.co.", "a@.b.co", "a.b.co", "a@" + strings.Repeat("x", 63) + ".co", "a@" + strings.Repeat("x", 64) + ".co", "a@b.c-d", "a@b.c-"},
+	"url": {"https://example.com", "http://a", "example.com", "https://", "mailto:a@b.co", "//example.com", "https://exa mple.com", "ftp://x/y?z#w", "http://[::1]:80", "http://%zz", ":foo",
+		"http:/a", "http:///path", "HTTP://A.B", "a://b", "1http://a.b", "/just/a/path", "http://a.b\n"},
+}
+
+func formatTest(n *Node) string {
+	if n.Kind != "string" {
+		return ""
+	}
+	for _, t := range n.Tests {
+		switch t.T {
+		case "match", "uuid", "email", "url":
+			return t.T
+		}
+	}
+	return ""
+}
+
+// genTypedFor is genTyped for the node at hand: a string with a format test mostly draws from that format's domain.
+func genTypedFor(r *Rng, n *Node) Val {
+	if f := formatTest(n); f != "" && r.P(0.7) {
+		return VS(Pick(r, formatDomain[f]))
+	}
+	return genTyped(r, n.Kind)
 }
 
 func genTyped(r *Rng, kind string) Val {
@@ -195,8 +234,13 @@ func genTests(r *Rng, c *GenCfg, n *Node) {
 			switch n.Kind {
 			case "string":
 				k := Pick(r, []string{"min", "max", "len", "oneof", "contains", "prefix", "suffix", "upper", "digit", "special"})
+				if c.Formats && r.P(0.25) {
+					k = Pick(r, []string{"match", "match", "uuid", "email", "url"})
+				}
 				t = TestSpec{T: k}
 				switch k {
+				case "match":
+					t.S = Pick(r, matchPatterns)
 				case "min", "max", "len":
 					t.N = int64(r.Intn(6))
 				case "oneof":
@@ -518,6 +562,7 @@ func genKind(r *Rng, c *GenCfg, kind string, depth int) *Node {
 		n.Extra = r.P(0.1)
 		nf := 1 + r.Intn(c.MaxFields)
 		used := map[string]bool{}
+		dashed := false
 		for i := 0; i < nf; i++ {
 			key := Pick(r, keyVocab)
 			if used[GoName(key)] {
@@ -531,13 +576,27 @@ func genKind(r *Rng, c *GenCfg, kind string, depth int) *Node {
 						tv := tn[:1] + "_" + key
 						if r.P(0.1) {
 							tv = Pick(r, []string{tn[:1] + "," + key, tn[:1] + " " + key, key + ",omitempty", tn[:1] + "-" + key, "é" + key,
-								"2" + tn[:1] + "_" + key, strconv.Itoa(2000 + 10*len(key) + int(key[0])%10)}) // digit-leading and all-digit keys are keys, not positions
+								"2" + tn[:1] + "_" + key, strconv.Itoa(2000 + 10*len(key) + int(key[0])%10), "-"}) // digit-leading and all-digit keys are keys, not positions; so is "-"
+							if tv == "-" {
+								// one field per struct at most: two fields named "-" in one source would be one member
+								if dashed {
+									tv = tn[:1] + "_" + key
+								}
+								dashed = true
+							}
 							if c.EmptyTags && r.P(0.3) {
 								tv = "" // names the field "": legal, but two such fields of one struct collide
 							}
 						}
 						f.Tags = append(f.Tags, KV{tn, VS(tv)})
 					}
+				}
+				if r.P(0.15) {
+					// tags of other packages, some with names that end like a source's: none of the library's business
+					ft := Pick(r, []KV{{"conform", VS("trim")}, {"myjson", VS("n")}, {"xform", VS("xf")}, {"dbquery", VS("q")}, {"zogx", VS("zx")},
+						{"validate", VS("required")}, {"my_env", VS("E")}, {"db", VS("json:\"col\"")}})
+					at := r.Intn(len(f.Tags) + 1)
+					f.Tags = append(f.Tags[:at:at], append([]KV{ft}, f.Tags[at:]...)...)
 				}
 			}
 			n.Fields = append(n.Fields, f)
@@ -631,7 +690,7 @@ func GenParseInput(r *Rng, c *GenCfg, n *Node) (v Val, missing bool) {
 		if r.P(c.PValid) {
 			tv = genSatisfying(r, n)
 		} else {
-			tv = genTyped(r, n.Kind)
+			tv = genTypedFor(r, n)
 		}
 		if c.RawStrings && n.Kind == "string" && r.P(0.05) {
 			// a Go string is bytes: latin-1 text, a truncated sequence, a BOM-like prefix come through unchanged
@@ -664,6 +723,9 @@ func GenParseInput(r *Rng, c *GenCfg, n *Node) (v Val, missing bool) {
 			return Pick(r, []Val{VI(5), VS("str"), VL(VS("x")), VB(true)}), false
 		}
 		m := VM()
+		if r.P(0.03) {
+			return m, false // `{}`: a present record all of whose members are missing
+		}
 		for _, f := range n.Fields {
 			fv, miss := GenParseInput(r, c, f.N)
 			if !miss {
@@ -779,7 +841,7 @@ func genBad(r *Rng, kind string) Val {
 func genSatisfying(r *Rng, n *Node) Val {
 	var last Val
 	for i := 0; i < 12; i++ {
-		v := genTyped(r, n.Kind)
+		v := genTypedFor(r, n)
 		last = v
 		ok := true
 		mv := typedVal(n, v)
@@ -863,7 +925,7 @@ func GenValidateInput(r *Rng, c *GenCfg, n *Node, full bool) Val {
 		if r.P(c.PValid) {
 			v = genSatisfying(r, n)
 		} else {
-			v = genTyped(r, n.Kind)
+			v = genTypedFor(r, n)
 		}
 		if full && validateAbsent(n, MIn{V: v}) {
 			v = nonZeroTyped(r, n.Kind)
